@@ -11,6 +11,7 @@ import (
 	"math/rand"
 	"runtime"
 	"sync"
+	"sync/atomic"
 	"time"
 
 	netty "github.com/go-netty/go-netty"
@@ -25,16 +26,16 @@ type IdleStep struct {
 }
 
 type IdleCase struct {
-	ID     string     `json:"id"`
-	Kind   string     `json:"kind"` // read | write
-	TickMs int        `json:"tick_ms"`
-	D      int        `json:"d"` // idle period in ticks
-	Steps  []IdleStep `json:"steps"`
-	Panic  bool       `json:"panic"` // the idle event handler panics
-	Free   bool       `json:"free"`  // callbacks are not gated (timing scenario): steps are active/io/tick/inactive only
-	InactivePanic bool `json:"inactive_panic"` // a handler behind the idle handler panics in HandleInactive (the channel's invoke scope absorbs it)
-	Random int        `json:"random"`
-	Seed   int64      `json:"seed"`
+	ID            string     `json:"id"`
+	Kind          string     `json:"kind"` // read | write
+	TickMs        int        `json:"tick_ms"`
+	D             int        `json:"d"` // idle period in ticks
+	Steps         []IdleStep `json:"steps"`
+	Panic         bool       `json:"panic"`          // the idle event handler panics
+	Free          bool       `json:"free"`           // callbacks are not gated (timing scenario): steps are active/io/tick/inactive only
+	InactivePanic bool       `json:"inactive_panic"` // a handler behind the idle handler panics in HandleInactive (the channel's invoke scope absorbs it)
+	Random        int        `json:"random"`
+	Seed          int64      `json:"seed"`
 }
 
 type IdleEvent struct {
@@ -55,6 +56,7 @@ type IdleResult struct {
 	Diverged   int            `json:"diverged"`
 	Actions    map[string]int `json:"actions"`
 	Delivered  int            `json:"delivered"`
+	JitterMs   int            `json:"jitter_ms"` // worst oversleep of a 2 ms sleep during the case (scheduler stalls of the machine)
 }
 
 type idleArrival struct {
@@ -116,6 +118,28 @@ func runIdleCase(c *IdleCase) *IdleResult {
 	}
 	tick := time.Duration(c.TickMs) * time.Millisecond
 	d := time.Duration(c.D) * tick
+	// watchdog: how late does this machine wake a sleeping goroutine right now? Oracles that rely on timers being
+	// roughly punctual are skipped when the answer is "very".
+	var jitter int64
+	stopWatch := make(chan struct{})
+	go func() {
+		for {
+			select {
+			case <-stopWatch:
+				return
+			default:
+			}
+			t0 := time.Now()
+			time.Sleep(2 * time.Millisecond)
+			if over := int64(time.Since(t0) - 2*time.Millisecond); over > atomic.LoadInt64(&jitter) {
+				atomic.StoreInt64(&jitter, over)
+			}
+		}
+	}()
+	defer func() {
+		close(stopWatch)
+		res.JitterMs = int(time.Duration(atomic.LoadInt64(&jitter)) / time.Millisecond)
+	}()
 	w := &idleWorld{arrivals: make(chan idleArrival, 16), gated: !c.Free, panicking: c.Panic}
 	var h netty.Handler
 	netty.VerifHook = func(obj interface{}, point string) {
@@ -364,7 +388,7 @@ drainLoop:
 			fail("event-after-inactive", fmt.Sprintf("an idle event was delivered by a timer callback that started %v after inactive", tc.Sub(w.inactAt)))
 		}
 	}
-	if inactive {
+	if inactive && time.Duration(atomic.LoadInt64(&jitter)) < d/4 {
 		// no idle period is timed after inactive: a callback that starts later than one full period after
 		// inactive can only stem from a timer armed after inactive
 		for _, t := range w.cbStarts {
